@@ -36,6 +36,9 @@ CHECKS = {
  'C16': dict(text='Exhaustive enumeration of all ordered pairs of type terms of depth <= 2 over a reduced alphabet (1.67M pairs in quick) plus Hypothesis-sampled pairs and triples of depth <= 3 with shared TypeReference objects, reference chains and bare concrete children; oracle is an independent structural meet with bottom (two formulations cross-checked); symmetry, same-denotation, idempotence, information preservation, clash iff bottom, order independence of clash-free triples.',
              note='Trusted: CPython, Hypothesis, the independent oracle lv/typemeet.py. Cyclic (occurs-check) cases skipped; nothing asserted after a clash inside a triple.',
              technique='exhaustive enumeration + property-based testing against a reference model (Hypothesis)', ref='2/C16'),
+ 'C17': dict(text='Stateful model-based search: a Hypothesis RuleBasedStateMachine owns one persistent SQLite file and 2-3 variants of a generated program grounding the same predicate names; steps run a predicate exactly as logica.py does (script mode, the real logica.py CLI in-process, or concertina for several predicates), repeat runs, reopen the observer, and tamper with a freshly written table to prove dependants read it; after every step the file read through a second connection must equal a table->multiset model computed by the independent reference evaluator, and returned rows must equal the reference.',
+             note='Trusted: CPython, sqlite3, Hypothesis, lv/ref.py, lv/canon.py. Bounds: <= 9 predicates, <= 5 rows per fact table, <= 3 grounded predicates, 2-3 variants, <= 11 steps. overwrite:false, @Ground(P, Q), copy_to_file and rule-less grounded predicates are outside the stated domain and not generated.',
+             technique='stateful model-based testing (Hypothesis RuleBasedStateMachine) against a reference evaluator, with fault-injection probes', ref='2/C17'),
  'C20': dict(text='One generated built-in call per case (scalar built-ins over small int/string/list domains; aggregates over <= 5 facts under ALL permutations of the fact order, K from 1 to n+1, ties, duplicates, nulls); executed on SQLite and compared with small Python models written from the documentation; every built-in of the statement exercised in every run.',
              note='Trusted: CPython, sqlite3, Hypothesis, the models in lv/builtin_models.py (each cites its documentation source). Corners the docs leave open (Element out of range, Split with empty separator, int division with remainder, negative modulo ...) are kept out of the domain and listed in evidence.',
              technique='property-based testing against reference models + exhaustive permutation of aggregate input order (Hypothesis)', ref='2/C20'),
